@@ -1,5 +1,6 @@
 import QuantemModel.Lemmas.Config
 import QuantemModel.Lemmas.ConfigTwin
+import QuantemModel.Lemmas.ConfigUpdate
 /-!
 C19 — the configuration store (Model/Config.lean) behaves as a last-writer-wins nested
 map.  Only property theorems and non-vacuity examples live here.
@@ -347,6 +348,50 @@ theorem get_assign_twin (keys : List Key) (v : Tree) :
           simpa using this
         · simp at h
       · simp at h
+
+/-- **nested updates merge without dropping sibling keys** (`update`, used by
+`update_defaults` and `refresh`): whatever the priority, the defaults and the nested content
+of `new`, and even when the call raises half-way, every top-level key that `new` does not
+mention in either spelling keeps exactly its previous value -/
+theorem update_preserves_unmentioned (env : Env) (prio : Priority) (k' : Key)
+    (new : List (Key × Tree)) (old : Dict) (defs : Option Tree)
+    (h : ∀ kv ∈ new, kv.1 ≠ k' ∧ altKey kv.1 ≠ k') :
+    dget (updateP env prio old defs new).1 k' = dget old k' :=
+  update_frame env prio k' new old defs h
+
+/-- the same for a successful `update_defaults`: entries of the configuration the new
+defaults do not mention are untouched -/
+theorem updateDefaults_preserves_unmentioned (env : Env) (s s' : State) (new : Dict) (k' : Key)
+    (h : ∀ kv ∈ new, kv.1 ≠ k' ∧ altKey kv.1 ≠ k')
+    (hs : updateDefaults env s new = .ok s') : dget s'.config k' = dget s.config k' := by
+  unfold updateDefaults at hs
+  cases h1 : normaliseTop env new with
+  | error e => simp [h1, bind, Except.bind] at hs
+  | ok new' =>
+    cases h2 : merge env s.defaults with
+    | error e => simp [h1, h2, bind, Except.bind] at hs
+    | ok cur =>
+      cases h3 : update env Priority.newDefaults s.config (some (Tree.node cur)) new' with
+      | error e => simp [h1, h2, h3, bind, Except.bind] at hs
+      | ok cfg =>
+        simp [h1, h2, h3, bind, Except.bind] at hs
+        subst hs
+        have hk := normaliseTop_keys env new new' h1
+        have h' : ∀ kv ∈ new', kv.1 ≠ k' ∧ altKey kv.1 ≠ k' := by
+          intro kv hkv
+          have : kv.1 ∈ new'.map (·.1) := List.mem_map.mpr ⟨kv, hkv, rfl⟩
+          rw [hk] at this
+          obtain ⟨kv0, hkv0, he⟩ := List.mem_map.mp this
+          have := h kv0 hkv0
+          rw [he] at this
+          exact this
+        have hf := update_frame env Priority.newDefaults k' new' s.config (some (Tree.node cur)) h'
+        unfold update at h3
+        split at h3
+        · rename_i d hd
+          simp at h3; subst h3
+          simpa [hd] using hf
+        · simp at h3
 
 /-! ### non-vacuity: concrete states meeting the hypotheses -/
 
